@@ -81,11 +81,13 @@ def check_par(tier, pid, chk=None):
     embedded = chk is not None
     if chk is None:
         chk = Check(pid, tier, "other")
-        pinned = {"C03": ["C03_par_optimal_every_schedule", "C03_par_correct", "C03_discarding_the_fringe_is_sound"],
-                  "C04": ["C04_no_deadlock", "C04_no_worker_crash", "C04_completion_only_when_idle", "C04_terminates_within_explicit_bound"]}.get(pid)
+        pinned = {"C03": ["C03_par_optimal_every_schedule", "C03_par_correct", "C03_discarding_the_fringe_is_sound",
+                          "C03_parallel_solver_returns_optimum", "C03_parallel_finished_run_is_optimal", "C03_holds_on_table_family"],
+                  "C04": ["C04_no_deadlock", "C04_no_worker_crash", "C04_completion_only_when_idle", "C04_terminates_within_explicit_bound",
+                          "C04_parallel_terminates", "C04_no_deadlock_no_crash_any_cutoff", "C04_no_reachable_deadlock"]}.get(pid)
         if pinned:
-            pr = check_proofs(pid, pinned)
-            proof_coverage(chk, pr, "make theories/Props/%s.vo && coqc theories/Props/%s.v (Print Assumptions scanned)" % (pid, pid))
+            pr = check_proofs("%s+%su" % (pid, pid), pinned)
+            proof_coverage(chk, pr, "make theories/Props/%s.vo Props/%su.vo && coqc on both (Print Assumptions scanned)" % (pid, pid))
     for b, what in ((build_harness(), "harness"), (build_model(), "model driver")):
         if not b[0]:
             chk.violation("unproved", what + " does not build: " + b[1], {"build": b[1]}); return chk.finish()
